@@ -2621,7 +2621,8 @@ impl CanonicalizeContext {
 			}
 
 			script.replace_children(new_children);
-			let lifted_base = as_element(mrow_children[i_multiscript]);
+			// the new element stands for the (first) script element; a base in front of it keeps its own attributes (e.g., an author's id)
+			let lifted_base = as_element(mrow_children[if i_base < i {i_base + 1} else {i}]);
 			add_attrs(script, &lifted_base.attributes());
 			script.remove_attribute("data-split");		// doesn't make sense on mmultiscripts
 			script.remove_attribute("mathvariant");		// doesn't make sense on mmultiscripts
